@@ -45,7 +45,7 @@ def curated():
     add('names', S({'A1': 1, 'A2': 2, 'A3': 3, 'B1': '=nm*2', 'B2': '=SUM(rg)'},
                    names={'nm': ['S', '$A$1'], 'rg': ['S', '$A$1:$A$3']}), ranges=['S!A1:A3'])
     add('cse', S({'A1': 1, 'A2': 2, 'B1': 3, 'B2': 4, 'D1:E2': {'array': '=A1:B2*2'},
-                  'F1': '=D1+E2', 'F2': '=SUM(D1:E2)'}), ranges=['S!D1:E2', 'S!A1:B2'], tags=['cse'])
+                  'F1': '=D1+E2', 'F2': '=SUM(D1:E2)', 'F3': '=SUM(D2:E2)'}), ranges=['S!D1:E2', 'S!A1:B2'], tags=['cse'])
     add('cse_ctx', S({'D1': 1, 'D2': 2, 'B1': 10, 'B2': 20, 'C1': '=IFERROR(D1:D2,99)',
                       'A1:A2': {'array': '=C1+B1:B2'}, 'E1': '=A1+A2'}), ranges=['S!A1:A2'], tags=['cse'],
         inputs=['S!D1', 'S!B2'])
